@@ -161,9 +161,25 @@ impl SortingAttr {
                     let b_f64 = b.parse::<f64>().ok().filter(|b| !b.is_nan());
 
                     match (a_f64, b_f64) {
-                        (Some(a), Some(b)) => {
-                            if let Some(ordering) = a.partial_cmp(&b) {
-                                break 'ordering ordering;
+                        (Some(a_f64), Some(b_f64)) => {
+                            match a_f64.partial_cmp(&b_f64) {
+                                // Integers were compared exactly above, so
+                                // a name that is only a number as a float
+                                // must not tie with two different integers
+                                // that round to it ("9007199254740992" <
+                                // "9007199254740993", both equal to
+                                // "9007199254740992.0" as floats). Among
+                                // names equal as floats, integers come
+                                // first to keep the ordering total.
+                                Some(Ordering::Equal) => {
+                                    let is_int = |s: &str| {
+                                        s.parse::<u128>().is_ok()
+                                            || s.parse::<i128>().is_ok()
+                                    };
+                                    break 'ordering is_int(b).cmp(&is_int(a));
+                                }
+                                Some(ordering) => break 'ordering ordering,
+                                None => {}
                             }
                         }
 
